@@ -21,7 +21,7 @@
    It holds for every method except miner_start, aqua_getWork and testing_getBlockTemplate,
    which start the miner and thereby (on a clique chain only) block sealing through the
    keystore entry point SignHashAllowed — and reach no other entry point. *)
-From AQ Require Import Lib.Bytes Rpc.Registry Rpc.Dispatch Generated.GenApis Rpc.RpcModel Rpc.RpcProofs.
+From AQ Require Import Lib.Bytes Rpc.Registry Rpc.Dispatch Rpc.Invoke Generated.GenApis Rpc.RpcModel Rpc.RpcProofs Rpc.InvokeProofs Rpc.ExposureProofs Rpc.ConeProofs.
 From Coq Require Strings.String.
 Import String.StringSyntax.
 Import ListNotations.
@@ -59,6 +59,59 @@ Theorem C18_resolve_only_registered :
   In e (r_entries r).
 Proof. exact resolve_only_registered. Qed.
 Print Assumptions C18_resolve_only_registered.
+
+(* --- the request path (Rpc/Invoke.v: json.go parse*, parsePositionalArguments; server.go readRequest,
+       handle, exec/execBatch): what a MESSAGE gets called.  A message is a list of requests (method
+       string, id validity, params shape with the decode oracle per element) sent singly or as a batch;
+       [argtab] gives every entry's argument list.  All universally quantified. --- *)
+
+(* invoked(message, registry) is a subset of the registry *)
+Theorem C18_invoked_subset_registry :
+  forall (r : registry) (argtab : entry -> list bool) (batch : bool) (qs : list request) (e : entry),
+  In e (invoke_message r argtab batch qs) -> In e (r_entries r).
+Proof. exact invoked_subset_registry. Qed.
+Print Assumptions C18_invoked_subset_registry.
+
+(* against ANY registry built by a sequence of RegisterName calls from one caller: whatever gets called
+   was registered before the sequence or is a method that passed the filter; a protected callback of a
+   caller that is not opted in is never called *)
+Theorem C18_invoked_passed_the_filter :
+  forall (f : flags) (caller : bytes) (r0 : registry) (apis : list api) (r : registry)
+         (argtab : entry -> list bool) (batch : bool) (qs : list request) (e : entry),
+  register_all f caller r0 apis = Some r ->
+  In e (invoke_message r argtab batch qs) ->
+  In e (r_entries r0) \/
+  exists a m, In a apis /\ In m (a_methods a) /\ e = mk_entry a m /\
+              (m_sub m = true \/ is_protected (m_name m) = false \/ is_allowed f caller = true).
+Proof. exact invoked_passed_the_filter. Qed.
+Print Assumptions C18_invoked_passed_the_filter.
+
+Theorem C18_no_optin_message_cannot_invoke_protected :
+  forall (apis : list api) (f : flags) (t : transport) (c : config) (r : registry)
+         (argtab : entry -> list bool) (batch : bool) (qs : list request) (e : entry),
+  flag_of f t = false ->
+  gen_exposed f t c apis = Some r ->
+  In e (invoke_message r argtab batch qs) ->
+  e_sub e = true \/ is_protected (e_go e) = false.
+Proof. exact no_optin_message_cannot_invoke_protected. Qed.
+Print Assumptions C18_no_optin_message_cannot_invoke_protected.
+
+Theorem C18_no_optin_message_cannot_invoke_signer_partial :
+  forall (apis : list api) (f : flags) (t : transport) (c : config) (r : registry)
+         (argtab : entry -> list bool) (batch : bool) (qs : list request) (e : entry),
+  In apis gen_api_sets ->
+  flag_of f t = false ->
+  gen_exposed f t c apis = Some r ->
+  In e (invoke_message r argtab batch qs) ->
+  e_signs e = false \/
+  In (e_ns e, e_wire e) [ (bs "miner", bs "start"); (bs "aqua", bs "getWork"); (bs "testing", bs "getBlockTemplate") ].
+Proof. exact no_optin_message_cannot_invoke_signer. Qed.
+Print Assumptions C18_no_optin_message_cannot_invoke_signer_partial.
+
+Theorem C18_arg_table_complete :
+  forallb (forallb has_args) gen_api_sets && has_args gen_meta_api = true.
+Proof. exact gen_arg_table_complete. Qed.
+Print Assumptions C18_arg_table_complete.
 
 (* the same for all 32 environments: only the transport's own flag matters *)
 Theorem C18_no_optin_signers_listed_partial :
@@ -144,6 +197,94 @@ Theorem C18_exposed_complete :
 Proof. exact gen_exposed_complete. Qed.
 Print Assumptions C18_exposed_complete.
 
+(* --- node-level composition: EXACTLY which slots (namespace, wire name, callback/subscription) a
+       transport serves, for every environment, every module whitelist and both chain kinds:
+       metadata service, or selected by the start function (HTTP: whitelisted, or Public when the
+       whitelist is empty; WS: the same or WSExposeAll; in-proc/IPC: everything) AND kept by RegisterName --- *)
+
+Theorem C18_served_slots_characterised :
+  forall (apis : list api) (f : flags) (t : transport) (c : config) (r : registry) (ns wire : bytes) (sub : bool),
+  gen_exposed f t c apis = Some r ->
+  ((exists e, In e (r_entries r) /\ slot_of ns wire sub e) <->
+   ((exists m, In m (a_methods gen_meta_api) /\ slot_of ns wire sub (mk_entry gen_meta_api m)) \/
+    (exists a m, In a apis /\ selected t c a = true /\ In m (a_methods a) /\
+                 slot_of ns wire sub (mk_entry a m) /\
+                 (m_sub m = true \/ is_protected (m_name m) = false \/ flag_of f t = true)))).
+Proof. exact served_slots_characterised. Qed.
+Print Assumptions C18_served_slots_characterised.
+
+Theorem C18_http_exposure :
+  forall (apis : list api) (f : flags) (c : config) (r : registry) (ns wire : bytes) (sub : bool),
+  gen_exposed f HTTP c apis = Some r ->
+  ((exists e, In e (r_entries r) /\ slot_of ns wire sub e) <->
+   ((exists m, In m (a_methods gen_meta_api) /\ slot_of ns wire sub (mk_entry gen_meta_api m)) \/
+    (exists a m, In a apis /\ whitelisted (c_http_modules c) a = true /\ In m (a_methods a) /\
+                 slot_of ns wire sub (mk_entry a m) /\
+                 (m_sub m = true \/ is_protected (m_name m) = false \/ f_http f = true)))).
+Proof. exact http_exposure. Qed.
+Print Assumptions C18_http_exposure.
+
+Theorem C18_ws_exposure :
+  forall (apis : list api) (f : flags) (c : config) (r : registry) (ns wire : bytes) (sub : bool),
+  gen_exposed f WS c apis = Some r ->
+  ((exists e, In e (r_entries r) /\ slot_of ns wire sub e) <->
+   ((exists m, In m (a_methods gen_meta_api) /\ slot_of ns wire sub (mk_entry gen_meta_api m)) \/
+    (exists a m, In a apis /\ (c_ws_expose_all c || whitelisted (c_ws_modules c) a) = true /\ In m (a_methods a) /\
+                 slot_of ns wire sub (mk_entry a m) /\
+                 (m_sub m = true \/ is_protected (m_name m) = false \/ f_ws f = true)))).
+Proof. exact ws_exposure. Qed.
+Print Assumptions C18_ws_exposure.
+
+(* of a whitelist only membership of the registered namespaces and emptiness matter *)
+Theorem C18_exposure_depends_on_membership :
+  forall (apis : list api) (f : flags) (t : transport) (c c' : config),
+  (forall a, In a apis -> mem_bytes (a_ns a) (c_http_modules c) = mem_bytes (a_ns a) (c_http_modules c')) ->
+  (forall a, In a apis -> mem_bytes (a_ns a) (c_ws_modules c) = mem_bytes (a_ns a) (c_ws_modules c')) ->
+  is_nil (c_http_modules c) = is_nil (c_http_modules c') ->
+  is_nil (c_ws_modules c) = is_nil (c_ws_modules c') ->
+  c_ws_expose_all c = c_ws_expose_all c' ->
+  gen_exposed f t c apis = gen_exposed f t c' apis.
+Proof. exact exposure_depends_on_membership. Qed.
+Print Assumptions C18_exposure_depends_on_membership.
+
+(* --- static reachability as a checked artefact (Rpc/ConeProofs.v over the generated key-use cone:
+       gen_cone_nodes / gen_cone_edges = every function from which a keystore signing entry point is
+       reachable in the VTA call graph, with the edges among them).  Coq computes the closure itself:
+       every call path from an RPC callback WITHOUT a protected name to a signing entry point passes
+       (after its first node) through clique.Clique.Seal or an RPC callback WITH a protected name --- *)
+
+Theorem C18_unprotected_paths_pass_the_gate :
+  forall (p : list N) (a t : N),
+  In a cone_unprotected_callbacks ->
+  is_path gen_cone_edges (a :: p) = true ->
+  In t (a :: p) -> cone_target t = true ->
+  existsb cone_gate p = true.
+Proof. exact unprotected_paths_pass_the_gate. Qed.
+Print Assumptions C18_unprotected_paths_pass_the_gate.
+
+(* generic: any graph, any gate predicate, any closed set without targets *)
+Theorem C18_paths_meet_a_gate :
+  forall (edges : list (N * N)) (gate : N -> bool) (S : list N) (target : N -> bool),
+  closed edges gate S = true ->
+  (forall x, memN x S = true -> target x = false) ->
+  forall (p : list N) (a t : N), is_path edges (a :: p) = true -> memN a S = true ->
+  In t (a :: p) -> target t = true ->
+  existsb gate p = true.
+Proof. exact paths_meet_a_gate. Qed.
+Print Assumptions C18_paths_meet_a_gate.
+
+(* the cone agrees with the other generated tables: its unprotected callbacks are exactly the three
+   sealing methods, every method marked signing is a cone node, six entry points, one Seal *)
+Theorem C18_cone_consistent :
+  cone_names_of_kind 4 = [bs "miner_start"; bs "aqua_getWork"; bs "testing_getBlockTemplate"] /\
+  forallb (fun x => match x with (ns, wire, _, _, _) =>
+             existsb (fun c => bytes_eqb (snd c) (ns ++ ("_"%byte :: wire))) gen_cone_callbacks end) gen_sign_targets = true /\
+  List.length (filter (fun n => N.eqb (snd n) 1) gen_cone_nodes) = 6%nat /\
+  List.length (filter (fun n => N.eqb (snd n) 2) gen_cone_nodes) = 1%nat /\
+  forallb (fun e => memN (fst e) (map fst gen_cone_nodes) && memN (snd e) (map fst gen_cone_nodes)) gen_cone_edges = true.
+Proof. exact cone_consistent. Qed.
+Print Assumptions C18_cone_consistent.
+
 (* --- opting in for one transport affects that transport only --- *)
 
 Theorem C18_optin_is_per_transport :
@@ -201,4 +342,38 @@ Example C18_eth_alias_single_only :
   is_callback_named (resolve_on gen_apis only_ipc_flags IPC gen_default_config false n_eth_sign) n_aqua_sign = true /\
   resolve_on gen_apis only_ipc_flags IPC gen_default_config true n_eth_sign = RNotFound /\
   resolve_on gen_apis only_ipc_flags HTTP gen_default_config false n_eth_sign = RNotFound.
+Proof. vm_compute. repeat split; reflexivity. Qed.
+
+(* messages that do and do not get something called (default environment, IPC, generated argument table):
+   no params needed when the callback has no arguments, even garbage params are ignored then; eth_ is an
+   alias for single requests only; missing optional (pointer) arguments are fine in an array but not when
+   params are absent; one bad id rejects a whole batch *)
+Example C18_invoke_examples :
+  names_of (invoke_message ipc_default gen_argtab false [q_getWork]) = [n_aqua_getWork] /\
+  names_of (invoke_message ipc_default gen_argtab false [q_eth_getWork_garbage_params]) = [n_aqua_getWork] /\
+  names_of (invoke_message ipc_default gen_argtab true [q_eth_getWork_garbage_params]) = [] /\
+  invoke_single ipc_default gen_argtab q_personal_sign = VNotFound /\
+  invoke_single ipc_default gen_argtab q_getBalance_short = VInvalidParams /\
+  names_of (invoke_message ipc_default gen_argtab false [q_startRPC_optional]) = [bs "admin_startRPC"] /\
+  invoke_single ipc_default gen_argtab q_startRPC_absent = VInvalidParams /\
+  names_of (invoke_message ipc_default gen_argtab true [q_getWork; q_personal_sign; q_getBalance_ok]) = [n_aqua_getWork; bs "aqua_getBalance"] /\
+  invoke_batch ipc_default gen_argtab [q_getWork; q_bad_id] = None.
+Proof. vm_compute. repeat split; reflexivity. Qed.
+
+(* duplicates / order / unknown names do not matter; matching is case-sensitive; a non-empty list of
+   unknown names serves the metadata service only (not the Public default); WSExposeAll = everything *)
+Example C18_whitelist_examples :
+  gen_exposed all_off HTTP (cfg [bs "aqua"; bs "net"] [] false) gen_apis
+    = gen_exposed all_off HTTP (cfg [bs "net"; bs "nosuch"; bs "aqua"; bs "aqua"; bs ""] [] false) gen_apis /\
+  count_served (gen_exposed all_off HTTP (cfg [bs "Aqua"; bs "PERSONAL"; bs " aqua"] [] false) gen_apis) = 1%N /\
+  count_served (gen_exposed all_off HTTP (cfg [bs "nosuch"] [] false) gen_apis) = 1%N /\
+  (40 <=? count_served (gen_exposed all_off HTTP (cfg [] [] false) gen_apis))%N = true /\
+  count_served (gen_exposed all_off WS (cfg [] [bs "nosuch"] true) gen_apis)
+    = count_served (gen_exposed all_off IPC (cfg [] [] false) gen_apis).
+Proof. vm_compute. repeat split; reflexivity. Qed.
+
+Example C18_cone_nonvacuous :
+  negb (is_nil cone_unprotected_callbacks) = true /\
+  existsb cone_target closure_ignoring_seal = true /\
+  existsb cone_target cone_reach = false.
 Proof. vm_compute. repeat split; reflexivity. Qed.
